@@ -403,7 +403,8 @@ class Bicomplex(object):
         return (z + z_2 / (1 + (z_2 + 1) ** 0.5)).log1p() * sign
 
     def arctanh(self):
-        return 0.5 * (((1 + self) / (1 - self)).log())
+        # 0.5 * log((1 + z) / (1 - z)) written with log1p to keep the accuracy for small |z|
+        return 0.5 * ((2 * self) / (1 - self)).log1p()
 
     @staticmethod
     def _arg_c(z1, z2):
